@@ -248,3 +248,7 @@ for FullSync<'static, ItemType, OgreAllocatorType, BUFFER_SIZE, MAX_STREAMS> {
         self.streams_manager.name()
     }
 }
+
+/// verification hook (compiled only under `cargo kani` or `--cfg reactive_mutiny_verif`): harnesses live outside this repository
+#[cfg(any(kani, reactive_mutiny_verif))]
+pub(crate) mod verif_hooks { include!(concat!(env!("REACTIVE_MUTINY_VERIF_DIR"), "/kani/uni_zero_copy_full_sync.rs")); }
